@@ -533,7 +533,12 @@ def check_spawn(ctx):
     ctx.check(R, sp, "receiver is the generator's seed sequence", "seed_seq" in A.unparse(recv), "spawn receiver `%s` is not the bit generator's seed sequence" % A.unparse(recv), key="spawn-seedseq")
     att = _attachment(fn)
     if att is None:
-        ctx.undecided(R, fn, "task generator store", "no statement attaches a generator to every task (neither `T[i] = T[i] + (gen,)` in a loop over the tasks nor a rebuilt task list)")
+        arg = sp.args[0] if sp.args else None
+        n_ok = arg is not None and isinstance(arg, ast.Call) and A.call_name(arg) == "len"
+        ctx.violate(R, sp, "every task gets its own spawned child generator",
+                    "spawn(%s) and no statement that attaches child i to task i (neither `T[i] = T[i] + (gen,)` in a loop over the tasks nor a rebuilt task list)%s: "
+                    "it cannot be shown that different batches draw from different streams" % (A.unparse(arg) if arg is not None else "", "" if n_ok else " - the number of children is not the number of tasks"),
+                    key="attach")
         return
     s, T, base, gen, child_of, covers, why_cov = att
     arg = sp.args[0] if sp.args else None
